@@ -172,4 +172,26 @@ def subIter (isMatch : Char → List Char → Bool) : List Char → List (List C
       | v :: vs => (subIter isMatch cs vs).map (fun r => (v ++ r.1, r.2))
     else (subIter isMatch cs vals).map (fun r => (c :: r.1, r.2))
 
+/-! ### asynchronous generators as their consumer sees them (third translator layer, `harness/pytrans3.py`) -/
+
+/-- the items a generator will still yield, and whether it raises after the last of them -/
+structure Gen (α : Type) where
+  rows : List α
+  boom : Bool
+deriving DecidableEq, Repr
+
+/-- `async for x in g: body` with `break`, by structural recursion over the items.  `upd g' s` records the generator's
+    new state in the loop state after every pull (the generator is an object the loop state refers to); `err s` is what
+    an exception carries.  A finished generator stays finished (`rows = []`, no further raise).  The result is never
+    `.next`: `.brk s` after `break` or exhaustion, `.ret a` after `return`, `.error` when the body or the generator raises. -/
+def Gen.iterE {α σ ρ ε : Type} (upd : Gen α → σ → σ) (err : σ → ε) (item : α → σ → Except ε (Step σ ρ)) :
+    List α → Bool → σ → Except ε (Step σ ρ)
+  | [], boom, s =>
+    let s' := upd { rows := [], boom := false } s
+    if boom then .error (err s') else .ok (.brk s')
+  | x :: rest, boom, s =>
+    match item x (upd { rows := rest, boom := boom } s) with
+    | .ok (.next s') => Gen.iterE upd err item rest boom s'
+    | other => other
+
 end Mimic.Py
